@@ -22,13 +22,17 @@ class SimLivelock(Exception):
     """The system under test keeps the loop busy without virtual time advancing (a zero-delay busy loop)."""
 
 
+def _wake():
+    pass
+
+
 class _Selector:
     def __init__(self, loop):
         self._loop = loop
 
     def select(self, timeout):
         self._loop._advance(timeout)
-        if self._loop.stalls:
+        if self._loop.stalls or self._loop._parked:
             self._loop._postpone_stalled()
         return ()
 
@@ -59,6 +63,7 @@ class SimLoop(asyncio.BaseEventLoop):
         self.stalls = {}
         self.owner_of = None  # callable(handle) -> owner key or None
         self.postponed = 0
+        self._parked = {}  # owner -> runnable handles held back while it is stalled
         self.on_postpone = None
         self._postpone_seq = 0
 
@@ -84,17 +89,35 @@ class SimLoop(asyncio.BaseEventLoop):
         self._now += timeout
 
     def stall(self, owner, until):
-        """Nothing belonging to `owner` runs before virtual time `until` (callbacks already in the ready queue still do:
-        the stall starts at the end of the current iteration)."""
+        """Nothing belonging to `owner` runs before virtual time `until`: its timers, its socket deliveries and the
+        steps of its tasks that are already runnable all wait (a descheduled or blocked process)."""
         if until > self.stalls.get(owner, 0.0):
             self.stalls[owner] = until
+            self.call_at(until, _wake)  # the loop must come back when the stall ends
 
     def _postpone_stalled(self):
         now = self._now
         for o in [o for o, u in self.stalls.items() if u <= now]:
             del self.stalls[o]
+            # what was runnable when the stall began runs first, in its original order
+            for h in self._parked.pop(o, []):
+                self._ready.append(h)
         if not self.stalls or self.owner_of is None:
             return
+        if self._ready:
+            keep = []
+            for h in self._ready:
+                o = None if h._cancelled else self.owner_of(h)
+                if o is not None and o in self.stalls:
+                    self._parked.setdefault(o, []).append(h)
+                    self.postponed += 1
+                    if self.on_postpone is not None:
+                        self.on_postpone()
+                else:
+                    keep.append(h)
+            if len(keep) != len(self._ready):
+                self._ready.clear()
+                self._ready.extend(keep)
         sched = self._scheduled
         end = now + self._clock_resolution
         keep = []
